@@ -2,5 +2,8 @@ import LicenseExpr.Props.C01
 #print axioms LE.C01_lexer_lossless
 #print axioms LE.C01_simple
 #print axioms LE.C01_default_partial
+#print axioms LE.advanced_tiles
+#print axioms LE.C01_default
+#print axioms LE.C01_tokens
 #print axioms LE.tokLits_ptoks
 #print axioms LE.C01_literals
